@@ -11,9 +11,9 @@ theorem hapFromNameRegex_expected : Gen.hapFromNameRegex = "^([^_]+)_.+_\\d+$" :
 theorem asmPrefixRegex_expected : Gen.asmPrefixRegex = "([A-Za-z]+\\d+)_" := rfl
 theorem improvesGuard_expected : Gen.improvesGuardFactor = -3 := rfl
 theorem tagWords_expected :
-    Gen.makeNameWords = ["Painted".toList, "Target".toList, "Primary".toList] ∧
-    Gen.labelWords = ["FalseDuplicate".toList, "Contaminant".toList, "Haplotig".toList, "Target".toList,
-                      "Unloc".toList, "Painted".toList] ∧
+    Gen.makeNameWords = ["Painted".toList, "Primary".toList, "Target".toList] ∧
+    Gen.labelWords = ["Contaminant".toList, "FalseDuplicate".toList, "Haplotig".toList, "Painted".toList,
+                      "Target".toList, "Unloc".toList] ∧
     Gen.cutTag = "Cut".toList ∧ Gen.paintedTag = "Painted".toList := by decide
 
 def sPainted : Str := ['P','a','i','n','t','e','d']
